@@ -3,6 +3,7 @@ package checks
 import (
 	"encoding/base64"
 	"fmt"
+	ppb "github.com/google/fhir/go/proto/google/fhir/proto/r4/core/resources/patient_go_proto"
 	"google.golang.org/protobuf/reflect/protoreflect"
 	"google.golang.org/protobuf/reflect/protoregistry"
 	"math"
@@ -38,6 +39,23 @@ func c14Strings(maxLen int) []string {
 		prev = cur
 	}
 	return out
+}
+
+var c14LitStrings []string
+
+// c14LiteralStrings: all strings of length 0..2 over the alphabet plus white-space code points that are not ASCII blanks
+func c14LiteralStrings() []string {
+	if c14LitStrings == nil {
+		sigma := append(append([]rune{}, c14Sigma...), '\u00a0', '\u0085', '\u2028', '\u3000', '\t')
+		c14LitStrings = []string{""}
+		for _, a := range sigma {
+			c14LitStrings = append(c14LitStrings, string(a))
+			for _, b := range sigma {
+				c14LitStrings = append(c14LitStrings, string(a)+string(b))
+			}
+		}
+	}
+	return c14LitStrings
 }
 
 // periodic strings of length 6..12 with period <= 2
@@ -470,6 +488,37 @@ func init() {
 					}
 					r.NontrivialByConstruction(r.Evals - before)
 				}},
+				{Name: "navigated-receivers", N: len(short), Note: "strings of length 0..2 as the family name and as the first and last of three given names of a Patient, reached by navigation: length, toChars, upper, equality, and one result per element of the repeated one", Run: func(i int, r *core.Rec) {
+					s := short[i]
+					rs := []rune(s)
+					n := int64(len(rs))
+					p := &ppb.Patient{Name: []*dtpb.HumanName{{Family: fhir.String(s), Given: []*dtpb.String{fhir.String(s), fhir.String("x"), fhir.String(s)}}}}
+					in := []fhir.Resource{p}
+					for _, c := range []struct {
+						fn, src string
+						want    any
+					}{
+						{"length", "Patient.name.family.length()", n}, {"toChars", "Patient.name.family.toChars().count()", n}, {"upper", "Patient.name.family.upper() = %raw.upper()", true}, {"equal", "Patient.name.family = %raw", true},
+						{"count", "Patient.name.given.count()", int64(3)}, {"select-length", "Patient.name.given.select(length()).count()", int64(3)}, {"select-length-first", "Patient.name.given.select(length()).first()", n},
+						{"select-length-last", "Patient.name.given.select(length()).last()", n}, {"indexed", "Patient.name.given[2].length()", n}, {"law", "Patient.name.family.toChars().count() = Patient.name.family.length()", true},
+						{"startsWith", "Patient.name.given[1].startsWith(%context.name.family) = 'x'.startsWith(%raw)", true}, {"concat", "(Patient.name.family & 'y').length()", n + 1},
+					} {
+						o := c14Out(lib.Run(c.src, in, map[string]any{"raw": system.String(s)}))
+						r.Eval()
+						r.State("recv|navigated." + strClass(s))
+						r.Nontrivial(c.src, s, o.kind)
+						bad := false
+						switch w := c.want.(type) {
+						case int64:
+							bad = !(o.kind == "int" && o.i == w)
+						case bool:
+							bad = !(len(o.res.Coll) == 1 && o.res.Coll[0] == system.Boolean(w))
+						}
+						if bad {
+							r.Fail(fmt.Sprintf("%s|navigated.%s|-|got=%s|value!=ref", c.fn, strClass(s), o.disc()), core.W{"s": s, "src": c.src, "got": o.res.String(), "want": c.want})
+						}
+					}
+				}},
 				{Name: "bound-code-receivers", N: len(c14CodeWrappers()), Note: "every code element bound to a value set (339 wrapper types) x every code of its value set as receiver: the string is the FHIR code; length, toChars, upper, lower, indexOf / substring / startsWith / endsWith at the ends, equality with the code", Run: func(i int, r *core.Rec) {
 					mt := c14CodeWrappers()[i]
 					vf := mt.Descriptor().Fields().ByName("value")
@@ -520,8 +569,8 @@ func init() {
 					}
 					r.NontrivialByConstruction(int64(vals.Len()) * 13)
 				}},
-				{Name: "literal-receivers", N: len(short), Note: "strings of length 0..2 written as string literals", Run: func(i int, r *core.Rec) {
-					s := short[i]
+				{Name: "literal-receivers", N: len(c14LiteralStrings()), Note: "strings of length 0..2 over the alphabet extended by the white-space code points U+00A0, U+0085, U+2028, U+3000 and a tab, written as string literals (raw and escaped): what stands between the quotes is the string", Run: func(i int, r *core.Rec) {
+					s := c14LiteralStrings()[i]
 					rs := []rune(s)
 					// the same string written raw and with every character as a \u escape (UTF-16 code units: a character
 					// beyond the BMP is an escaped surrogate pair)
